@@ -41,10 +41,14 @@ def gen_qshape():
     lines.append("def methods : List String := [%s]" % ", ".join(lean_str(n) for n in names))
     lines.append("end Hy.Gen.QShape")
     C.write_gen_file("QShape", "\n".join(lines) + "\n")
+# Props/C06.lean imports Props/C04, whose translated definition (Hy/Gen/TransVarint.lean) must be
+# regenerated from the tree under check before the build (and its fault-site table: a file left behind by
+# a run on another tree would be built against)
+from .C04 import gen_sites as gen_sites_c04, gen_trans_varint
 
 
 CFG = {
-    "gen_hooks": [gen_qshape],
+    "gen_hooks": [gen_qshape, gen_sites_c04, gen_trans_varint],
     "props_module": "Hy.Props.C06",
     "gen_modules": ["core"],
     "level": "proof",
